@@ -1481,6 +1481,7 @@ func Run(cfg core.Config, scope core.Scope) *core.Result {
 		"STRIDE.walk: a matrix operand passed as a vector is walked with a constant increment or one derived from its own leading dimension",
 		"STRIDE.pair: at every call or struct literal a (slice, stride) pair refers to one operand",
 		"STRIDE.unitidx: an element of a vector parameter with an increment parameter inc* is addressed by an index that does not involve that increment (a bare loop counter) only where the control-flow graph restricted to inc != 1 cannot reach",
+		"STRIDE.fullrange: a loop that stores into a vector parameter which has an inc* parameter does not range over the whole parameter slice (whose length is only bounded below) but over a reslice by the element count",
 		"STRIDE.veclda: a contiguous vector parameter (no ld/inc of its own) handed to a callee's matrix parameter as a single column (cols == 1) is not given a bare problem dimension as its leading dimension")
 	res.Configs = append(res.Configs, cfg.String())
 	pkgs, err := core.Load(cfg, patterns...)
@@ -1611,6 +1612,7 @@ func analyseFunc(res *core.Result, pkg *packages.Package, fd *ast.FuncDecl) {
 	ob := res.Obligations
 	fa.check(fd.Body)
 	fa.checkUnitIndex(fd)
+	fa.checkFullRange(fd)
 	fa.checkWorkBlocks()
 	fa.checkWorkNext(fd.Body)
 	if res.Obligations > ob {
@@ -1772,4 +1774,86 @@ func (fa *funcAnalysis) checkUnitIndex(fd *ast.FuncDecl) {
 func isFloatOrComplex(t types.Type) bool {
 	b, ok := t.Underlying().(*types.Basic)
 	return ok && b.Info()&(types.IsFloat|types.IsComplex) != 0
+}
+
+// checkFullRange implements STRIDE.fullrange. A BLAS vector operand is
+// "at least (n-1)*|inc|+1 elements long": callers hand in longer slices
+// (workspaces, rows of a matrix) and everything behind the n-th element is
+// outside the addressed region. A loop `for i := range y { y[i] = … }` over
+// the parameter itself therefore also rewrites the elements behind the
+// operand; the unit-stride arms range over `y[:n]` (or reslice first:
+// `x = x[:n]`). Reported: a range over the bare identifier of a numeric
+// vector parameter that has an inc* parameter and is never reassigned, whose
+// body stores into that parameter.
+func (fa *funcAnalysis) checkFullRange(fd *ast.FuncDecl) {
+	vec := map[types.Object]bool{}
+	for o, k := range fa.strideOwner {
+		if !strings.HasPrefix(strings.ToLower(o.Name()), "inc") {
+			continue
+		}
+		for so, sk := range fa.sliceOwner {
+			if sk == k {
+				vec[so] = true
+			}
+		}
+	}
+	if len(vec) == 0 {
+		return
+	}
+	reassigned := map[types.Object]bool{}
+	ast.Inspect(fd.Body, func(n ast.Node) bool {
+		if as, ok := n.(*ast.AssignStmt); ok {
+			for _, l := range as.Lhs {
+				if id, ok := l.(*ast.Ident); ok {
+					if o := core.ObjOf(fa.info, id); vec[o] {
+						reassigned[o] = true
+					}
+				}
+			}
+		}
+		return true
+	})
+	ast.Inspect(fd.Body, func(n ast.Node) bool {
+		rs, ok := n.(*ast.RangeStmt)
+		if !ok {
+			return true
+		}
+		id, ok := ast.Unparen(rs.X).(*ast.Ident)
+		if !ok {
+			return true
+		}
+		o := core.ObjOf(fa.info, id)
+		if !vec[o] || reassigned[o] {
+			return true
+		}
+		if tv, ok := fa.info.Types[rs.X]; ok {
+			if sl, ok := tv.Type.Underlying().(*types.Slice); !ok || !isFloatOrComplex(sl.Elem()) {
+				return true
+			}
+		}
+		stores := false
+		ast.Inspect(rs.Body, func(m ast.Node) bool {
+			if as, ok := m.(*ast.AssignStmt); ok {
+				for _, l := range as.Lhs {
+					if ix, ok := ast.Unparen(l).(*ast.IndexExpr); ok {
+						if b, ok := ast.Unparen(ix.X).(*ast.Ident); ok && core.ObjOf(fa.info, b) == o {
+							stores = true
+						}
+					}
+				}
+			}
+			return true
+		})
+		fa.res.Obligations++
+		fa.res.Count("ranges_over_vector_parameters", 1)
+		if stores {
+			fa.res.Add(core.Finding{
+				Rule: "STRIDE.fullrange",
+				Key:  fmt.Sprintf("STRIDE.fullrange|%s|%s", fa.name, o.Name()),
+				Pos:  core.Pos(rs.Pos()), Func: fa.name,
+				Msg: fmt.Sprintf("the loop ranges over the whole slice %s and stores into it: %s is only required to hold at least the addressed elements, so elements behind the operand (trailing length of a longer slice handed in by the caller) are overwritten; range over %s[:count]", o.Name(), o.Name(), o.Name()),
+			})
+		}
+		return true
+	})
 }
